@@ -29,7 +29,7 @@ SUPP = os.path.join(paths.CORPUS, "conc", "tsan.supp")
 # the print callbacks with an unsynchronised lazy `_canonical` fill (Generated.lazyCanonSites, proved in Props.C16.lazy_canon_sites)
 LAZY_SITES = {"lyplg_type_print_binary", "lyplg_type_print_bits", "lyplg_type_print_date_and_time", "lyplg_type_print_ipv4_address",
               "lyplg_type_print_ipv4_address_no_zone", "lyplg_type_print_ipv4_prefix", "lyplg_type_print_ipv6_address",
-              "lyplg_type_print_ipv6_address_no_zone", "lyplg_type_print_ipv6_prefix"}
+              "lyplg_type_print_ipv6_address_no_zone", "lyplg_type_print_ipv6_prefix", "lyplg_type_print_union"}
 ERR_DEREF = {"ly_err_first", "ly_err_last", "ly_err_clean", "log_store", "ly_err_move"}
 
 
